@@ -54,4 +54,14 @@ LEVEL = {
            "state machines advanced under ANY schedule produce what they produce alone. Whether Python's steps act on one "
            "component only is established by the byte-exact correspondence under adversarial conditions (abandoned streams, "
            "interleaved generators, threads, hash seeds) and a static scan for mutation of shared objects. Partial.",
+    "C18": "The property is FALSE on the current code; no theorem can close it. Proved: three kernel-checked counterexamples "
+           "(C18_counterexample_prefix/_datatype/_name: the writer succeeds, the reference decoder accepts, the data differ) "
+           "and — pending in C03.lean — the positive part (a statement that fits never corrupts). The check replays overflow "
+           "cases on the real code; every failure must match the known finding's signature (the model predicts the same bytes "
+           "AND the statement does not fit), anything else is a new violation. Partial.",
+    "C20": "The property is FALSE on the current code. Proved: C20_counterexample (kernel-checked: after a rejected statement the "
+           "next one decodes to different data), C20_rejection_leaves_flow_untouched (nothing of a rejected statement reaches "
+           "the flow, so what was written before stays a valid prefix — the last sentence of the property, for all inputs), "
+           "C20_clean_rejection_leaves_no_trace. The check's failures must match the known finding's signature (model predicts "
+           "the same output AND the rejection changed encoder state). Partial.",
 }
